@@ -35,6 +35,13 @@ type env struct {
 	// effects records calls such as copy(b[j:], "lit") as the evaluated constant arguments.
 	effects []effect
 	depth   int
+	// pre, when set, is consulted before the normal evaluation of every
+	// expression; a non-nil result is the value of the expression (symbolic
+	// atoms of facts_show.go).
+	pre func(x ast.Expr) constant.Value
+	// hook, when set, is consulted before every statement; handled=true means
+	// the hook executed the statement and k is its result.
+	hook func(s ast.Stmt) (k stopKind, handled bool)
 }
 
 type effect struct {
@@ -59,6 +66,11 @@ func exprText(fset *token.FileSet, x ast.Expr) string {
 
 // eval returns nil when the expression is not evaluable.
 func (e *env) eval(x ast.Expr) constant.Value {
+	if e.pre != nil {
+		if v := e.pre(x); v != nil {
+			return v
+		}
+	}
 	if tv, ok := e.pkg.TypesInfo.Types[x]; ok && tv.Value != nil {
 		return tv.Value
 	}
@@ -444,6 +456,11 @@ func (e *env) unknown(format string, a ...any) stopKind {
 }
 
 func (e *env) stmt(s ast.Stmt) stopKind {
+	if e.hook != nil {
+		if k, handled := e.hook(s); handled {
+			return k
+		}
+	}
 	switch s := s.(type) {
 	case *ast.EmptyStmt:
 		return stopNone
